@@ -20,6 +20,26 @@ TRUSTED_COMMON = [
 ]
 
 
+def strict_json(x):
+    """Make x safe for strict JSON parsers (jq, jsonschema CLIs): lone surrogates in strings are written out as
+    text, NaN/Infinity (not JSON) become strings, keys become strings."""
+    if isinstance(x, str):
+        try:
+            x.encode("utf-8")
+            return x
+        except UnicodeEncodeError:
+            return "".join(c if not (0xD800 <= ord(c) <= 0xDFFF) else "\\u%04x" % ord(c) for c in x)
+    if isinstance(x, float):
+        return x if x == x and x not in (float("inf"), float("-inf")) else repr(x)
+    if isinstance(x, bool) or x is None or isinstance(x, int):
+        return x
+    if isinstance(x, dict):
+        return {strict_json(k if isinstance(k, str) else str(k)): strict_json(v) for k, v in x.items()}
+    if isinstance(x, (list, tuple)):
+        return [strict_json(v) for v in x]
+    return strict_json(str(x))
+
+
 class Property:
     id = "C00"
     prop_modules = []          # Lean modules holding the property theorems
@@ -227,7 +247,7 @@ class Engine:
         os.makedirs(d, exist_ok=True)
         path = os.path.join(d, name)
         with open(path, "w", encoding="utf-8") as f:
-            json.dump(payload, f, indent=1, sort_keys=True, default=str)
+            json.dump(payload, f, indent=1, sort_keys=True, default=str)  # replays keep the case verbatim (Python reads them back)
         return os.path.relpath(path, VERIF)
 
     def main(self):
@@ -422,7 +442,7 @@ class Engine:
         evdir = os.path.join(VERIF, "evidence") if os.path.realpath(REPO) == os.path.realpath("/repo") else os.path.join(VERIF, "replays", "_scratch_evidence")
         os.makedirs(evdir, exist_ok=True)
         with open(os.path.join(evdir, p.id + ".json"), "w", encoding="utf-8") as f:
-            json.dump(ev, f, indent=1, default=str)
+            json.dump(strict_json(ev), f, indent=1, allow_nan=False)
         self.say("%s tier=%s seed=%d: %d cases, %d distinct non-trivial, theorems %d/%d, build_ok=%s, B-fails %d (known %d), A/C-fails %d, exit %d, %.1fs" % (
             p.id, tier, self.seed, stats["evaluations"], len(stats["nontrivial"]), leanres["discharged"], len(leanres["theorems"]),
             leanres["build_ok"], len(viol), len(knownhits), len(afails), rc, time.time() - self.t0))
